@@ -4,6 +4,7 @@ Functions whose module starts with one of `prefixes` are interpreted from their
 current source; everything else is either executed natively (all operands
 concrete) or dispatched to a model (pysym.models / pysym.stubs)."""
 import ast
+import os
 import builtins
 import hashlib
 import inspect
@@ -872,7 +873,7 @@ class Frame:
             from .models import setitem
             # an empty display is usually filled later, possibly under symbolic keys and through aliases (arguments,
             # default values, other containers): start symbolic so that the object identity survives
-            d = {} if e.keys else SDict([])
+            d = {} if (e.keys or os.environ.get('NOSD')) else SDict([])
             for k, v in zip(e.keys, e.values):
                 if k is None:
                     src = s.split(s.ev(v))
